@@ -16,7 +16,7 @@ from .harness import new_result, fail, bump
 
 PROP = 'C13'
 RUNS = {'quick': 220, 'thorough': 9000}
-BUDGET_S = {'quick': 170, 'thorough': 2700}
+BUDGET_S = {'quick': 200, 'thorough': 2700}
 CHUNK = 2
 
 def init():
